@@ -104,9 +104,15 @@ CHECKS = [
           "C11_decl_blanks_refuted); totality and non-empty errors hold for all 2^8 combinations of repairs; the round trip covers several blanks between state names "
           "and regexes ending in FF/NEL/LRM/RLM. Not mirrored, decided by direct clauses: numeric flags >= 2^32 are in force as written or refused with one located "
           "Header error; a regex with unbalanced parentheses is exactly one RegexError; ANCH: every emitted lexeme is matched by its rule's regex, compiled on its "
-          "own, at offset 0 of the remaining input.",
+          "own, at offset 0 of the remaining input. "
+          "Second audit round (a1aadcd, ff0cd55 + 0ffd98f): only the OCTAL digits stay escaped - \\8 and \\9 are escapes neither of lex nor of the regex crate and "
+          "stand for the digit (C11_esc_table_digit_refuted, C11_lex_esc_digit_refuted, C11_nonoctal_digit_plain: for c = 8, 9, every flag setting and every "
+          "following text the image of \\c is c); the mirror has nine selectable repairs, totality and non-empty errors hold for all 2^9 combinations. Not mirrored, "
+          "decided by a direct clause: the nest limit in force is the one given, on the written regex - a rule is accepted iff the regex crate on its own builds the "
+          "written regex under the limit given (29 regexes x nest_limit 0..5 x three routes, and no limit x depths 5..300; before the repairs the limit in force was "
+          "two less: the \\A(?:..) wrapper is a concatenation AND a group; the first repair was one short and the check's grid found it).",
   "design_ref": "DESIGN.md §5 C11, §A.3",
-  "note": _TB + "the %grmtools header end position and regex compilability are inputs of the mirror (header parser: C12; regex crate: oracle). Numeric limits are observed through the public LexFlags::try_from on the parsed section; ANCH trusts the regex crate's leftmost-first search; look-behind across lexemes is C09's known finding.",
+  "note": _TB + "the %grmtools header end position and regex compilability are inputs of the mirror (header parser: C12; regex crate: oracle). Numeric limits are observed through the public LexFlags::try_from on the parsed section; for the nest limit the reference is the regex crate itself (RegexBuilder::new(written).nest_limit(n), i.e. regex-syntax's notion of nesting depth: groups, classes, repetitions, alternations and concatenations count one level each); ANCH trusts the regex crate's leftmost-first search; look-behind across lexemes is C09's known finding; alternation inside one rule is the regex crate's leftmost-first choice (observation, recorded per run).",
   "technique": "Coq proof on a mirror of the lex parser (escape rewriting = spec, totality, span indexing) + abstract-spec oracle + impl/mirror differential"},
  {"id": "C12",
   "text": "Coq theorems about a mirror of the %grmtools section parser for ALL strings: total with fuel 2|src|+4, never panics, a value or a "
@@ -120,7 +126,11 @@ CHECKS = [
           "C12_conv_error_spans_wellformed); the renderer's label dispatch is total for any number of spans (C12_span_labels_total; before 87315cb it panicked iff "
           "SpansKind::Error and >= 2 spans: C12_span_labels_orig_panics_iff, C12_render_invalid_entry_refuted). Tie: EVERY error and warning returned on every "
           "generated text and every value conversion of a parsed section is rendered with SpannedDiagnosticFormatter under catch_unwind (no panic, non-empty, right "
-          "first line number); conversions = extracted mirror on every entry (~22 000 per quick run); multi-span errors are an obligation of every run.",
+          "first line number); conversions = extracted mirror on every entry (~22 000 per quick run); multi-span errors are an obligation of every run. "
+          "Second audit round, white space before a constructor argument (/repo fdd053a, mirror flag fixed_ctor_ws): C12_header_ctor_ws_refuted (pinned: "
+          "`Original( NoAction)` is IllegalName; repaired: the value of `Original(NoAction)`), C12_header_layout_insensitive_ctor (repaired: the same value for "
+          "EVERY run of white space after the '('), C12_header_layout_sensitive_ctor_pinned; a fixed family of 440 sections in every run: implementation = mirror, "
+          "value = value of the section without that white space.",
   "design_ref": "DESIGN.md §5 C12, §5E",
   "note": _TB + "span well-formedness of yacc errors/warnings/AST spans and of lex errors is proved for the repaired code (C12_yacc_error_spans_wellformed, C12_lex_error_spans_wellformed; action-span ends and pre-fix lex spans refuted); the native stack is modelled as a frame budget: with the repaired parser (nesting limit 64) 65 frames always suffice (C12_header_depth_bounded); the pinned parser is refuted for every budget (C12_header_depth_unbounded_refuted). SpannedDiagnosticFormatter is executed, not mirrored, in C12 (its row printer is C19's mirror; C12_format_spanned_any_number_of_spans re-exports C19's theorem).",
   "technique": "Coq proof (header, yacc and lex parser mirrors total; header spans well-formed) + impl/mirror differential + panic/hang/bad-span oracle on mutated specifications"},
@@ -173,9 +183,15 @@ CHECKS = [
           "(C18_incremental_differs_only_by_skipped_inspector, C18_failed_build_no_stale_or_skipped_inspector). Tie: random and targeted histories replayed against the real CTLexerBuilder/CTParserBuilder, one process per build, "
           "explicit mtimes, each step compared with the mirror and with a clean build. "
           "Plus a static part on the source text of rebuild_cache (every type_name argument and every builder field flows into the cache string or is one of the "
-          "six documented-as-ignored fields), the parser builder's type parameter as an option of the histories, and test_files histories.",
+          "six documented-as-ignored fields), the parser builder's type parameter as an option of the histories, and test_files histories. "
+          "Second audit round, manual-lexer flow (CTParserBuilder::build ; CTTokenMapBuilder::build, /repo 746e223): after any history a build whose parser stage "
+          "succeeds leaves $OUT_DIR/<mod>.rs as a clean build does, absent if the token map build fails (C18_tokmap_incremental_equals_clean; "
+          "C18_tokmap_build_is_function_of_inputs; pinned variant refuted: C18_tokmap_failed_build_leaves_stale_refuted); identical content is not rewritten, and only "
+          "then (C18_tokmap_written_iff_changed, C18_tokmap_rebuild_is_noop); scope: a failing PARSER build ends the script before the token map builder runs and "
+          "keeps the other builder's module (C18_manual_flow_parser_failure_keeps_tokmap). Tie: manual-flow histories, one process per build with OUT_DIR in its "
+          "environment, every module file vs the mirror and vs a build into an empty OUT_DIR, plus a panic probe.",
   "design_ref": "DESIGN.md §5 C18",
-  "note": _TB + "file contents are abstract descriptors in the model (bijection with bytes checked per run); mtimes are set by the harness. The static cache-coverage part is a hand-written reader of Rust source text (syntactic over-approximation of 'is recorded'); the inspector's verdict is abstract in Coq and instantiated by a hand-made table checked against every clean build; replacing a source by a file with an OLDER mtime is outside the operation set.",
+  "note": _TB + "file contents are abstract descriptors in the model (bijection with bytes checked per run); mtimes are set by the harness. The static cache-coverage part is a hand-written reader of Rust source text (syntactic over-approximation of 'is recorded'); the inspector's verdict is abstract in Coq and instantiated by a hand-made table checked against every clean build; replacing a source by a file with an OLDER mtime is outside the operation set. Manual flow: 'is an identifier after renaming' (renamed) is abstract in Coq and instantiated by Python's str.isidentifier on T_ + the upper-cased name (agreement with the real builder checked on every build); write errors of the token map builder are not generated.",
   "technique": "Coq proof (invariant over build histories on a mirror of the builders) + history replay differential against the real builders"},
  {"id": "C03",
   "text": "Coq theorems for ALL states, precedence assignments and BOTH hash iteration orders (as list parameters): the mirror of the "
@@ -190,7 +206,13 @@ CHECKS = [
           "C03_cell_bison_eq_yacc_outside_three_way, C03_yacc_disagreement_is_three_way); on concrete three-way cells the mirror of StateTable::new differs from "
           "Yacc for EVERY iteration order (C03_three_way_left_refuted, _nonassoc_refuted, _report_refuted: known finding C03-three-way-cell); byacc and bison differ "
           "from each other on some (C03_bison_yacc_differ). Tie: every cell and conflict list vs cell_yacc (either Yacc accepted where they differ); "
-          "CTParserBuilder Ok/Err vs the counts of the Yacc reports.",
+          "CTParserBuilder Ok/Err vs the counts of the Yacc reports. "
+          "Second audit round (/repo 4ff022d: a token named only by %prec was reported unused, so the default build of the textbook unary-minus grammar failed "
+          "without any conflict): the warnings OWED by a grammar (unreachable rules; tokens no reachable production uses as a symbol or names by %prec - the notion "
+          "proved about the parser mirror in C10_prec_token_is_used) are computed independently of the implementation; warnings_are_errors(true) is combined with "
+          "exactly the grammars that owe none (before: those for which the implementation reported none - a spurious warning excused itself), the implementation's "
+          "warning count is compared with the owed number on every case, and grammars with precedence pseudo-tokens are built with CTParserBuilder's DEFAULT "
+          "options for each %expect variant: Err iff the counts differ.",
   "design_ref": "DESIGN.md §5 C03",
   "note": _TB + "which k-1 reduce/reduce pairs are listed for k>2 candidates is only constrained (count, membership, losers), as the property leaves it open. The byacc model is corroborated informationally by ocamlyacc's conflict totals; the bison model is read off the source and only used to accept more.",
   "technique": "Coq proof (mirror of table population = declarative cell spec for every iteration order) + exhaustive per-cell differential"},
@@ -205,7 +227,14 @@ CHECKS = [
           "C10round_prod_span_ends_after_last_symbol; pinned variant refuted, repaired 69c4b9b; the oracle demands that end exactly); which of several unknown %epp "
           "names is reported = the first declared (repaired 3e32e4e; no longer canonicalised by the harness). Two further known findings are live in every run, each "
           "with a refutation witness and a named well-formedness condition of the round trip: braces inside Rust literals/comments of action code "
-          "(C10round_action_literal_brace_refuted, C10round_wf_layout_split) and layout kept after action types (C10round_actiontype_layout_refuted).",
+          "(C10round_action_literal_brace_refuted, C10round_wf_layout_split) and layout kept after action types (C10round_actiontype_layout_refuted). "
+          "Second audit round. Used tokens (/repo 4ff022d; GrammarAST::unused_symbols mirrored, flag fu): for EVERY AST the %prec token of a production of a "
+          "reachable rule is never reported unused (C10_prec_token_is_used; reachability stated independently of the work list), nor is a token that occurs as a "
+          "symbol of a reachable production (C10_symbol_token_is_used); warnings = projection of the unused list (C10_warnings_are_unused); the pinned walk is refuted "
+          "on the unary-minus grammar (C10_prec_only_token_unused_refuted) and a pseudo-token named only by an unreachable production IS reported "
+          "(C10_prec_token_unreachable_reported). Tie: a family of grammars with precedence pseudo-tokens whose warnings must equal a first-principles expectation "
+          "exactly (kind, span, order). Layout of the %grmtools header (/repo fdd053a): kind spellings with white space after the '(' of Original(..); a header "
+          "rejected only because of that white space (the same text without it is accepted) is a counterexample of the layout clause.",
   "design_ref": "DESIGN.md §5 C10",
   "note": _TB + "the whole-file round-trip law parse (print layout ag) = ast_of ag is PROVED (C10round_yacc_roundtrip) for all three dialects (Original, Grmtools "
           "with per-rule action types, Eco with %implicit_tokens), all 12 declaration kinds (%start %token %left/%right/%nonassoc %epp %avoid_insert "
@@ -339,9 +368,14 @@ CHECKS = [
           "validated_search_complete on validated tables; search_complete_needs_cost_bound: above 65535 the u16 search reports nothing, a "
           "known finding replayed on the implementation). Per generated error the "
           "implementation's list is compared with the reference set (missing / extra / over-priced sequence = witness) and the ordering, "
-          "dedup, equal-cost, no-trailing-shift, no-EOF clauses are checked directly.",
+          "dedup, equal-cost, no-trailing-shift, no-EOF clauses are checked directly. "
+          "Second audit round (/repo 00915cc): the RANK is the distance capped at in_laidx + TRY_PARSE_AT_MOST for every candidate (C06_rank_fixed_spec: the repaired "
+          "rank_cnds keeps exactly the candidates whose capped distance - measured by a parse that never goes beyond the cap, C06_parse_below_within / "
+          "C06_cap_dist_is_capped_distance / C06_far_is_capped_distance - is maximal; the pinned ranking, which parsed a candidate whose own repairs end beyond the "
+          "cap on without limit, is refuted: C06_rank_cap_refuted_orig, and the reference that had mirrored it is corrected: C06_reference_orig_uncapped); families "
+          "whose repairs reach past the cap (>= 243 cheap deletions against one dear insertion; >= 60 unit-cost edits) run first.",
   "design_ref": "DESIGN.md §5 C06, §5B",
-  "note": _TB + "completeness/minimality theorems are about the search MIRROR (tied to the code by the correspondence run) and carry cmin <= 65535; the implementation's set is compared per generated error with the proved-exact reference; reference capped by enumeration size (skipped cases counted).",
+  "note": _TB + "completeness/minimality theorems are about the search MIRROR (tied to the code by the correspondence run) and carry cmin <= 65535; the implementation's set is compared per generated error with the proved-exact reference; reference capped by enumeration size (skipped cases counted). On the unit-cost families past the look-ahead cap the exhaustive reference is out of reach and the oracle is the search mirror under C06_validated_search_complete_at_error, its hypotheses evaluated by the extracted code on the dump.",
   "technique": "Coq proof (verified exhaustive reference for minimum-cost repair sets) + set-equality differential with the implementation's repair lists"},
 ]
 
